@@ -270,13 +270,48 @@ Definition ct_lrint (f : fmt) (x : fval) : res Z :=
 (** * _cmath/fma.hpp in constant evaluation: x * y + z (two roundings) *)
 Definition ct_fma (f : fmt) (x y z : fval) : fval := fadd f (fmul f x y) z.
 
-(** * _cmath/fmod.hpp, remainder.hpp in constant evaluation: gcem::fmod (for both!)
-    any_nan -> NaN | not all_finite -> NaN | x - trunc(x / y) * y   with gcem::trunc.
-    x / 0 is not a constant expression: y = 0 is outside the domain of the harness tables.
-    Recorded findings KF-C13-fmod-ct-gcem and KF-C13-remainder-ct-is-fmod (C16 records the same code
-    as its KF-C16-gcem-fmod findings): at run time both functions call the exact builtins. *)
+(** * _cmath/fmod.hpp, remainder.hpp in constant evaluation: gcem::fmod / gcem::remainder after the
+    fix: commits 57a95a0, 3d5fc50 (exact binary long division, _3rd_party/gcem/gcem_incl/fmod.hpp) *)
+
+(* fmod_exact, first loop:  while (a <= r * T(0.5)) a = a + a; *)
+Fixpoint fmod_up (fuel : nat) (f : fmt) (r a : fval) : res fval :=
+  if fle a (fmul f r fhalf) then
+    match fuel with O => OutOfFuel | S k => fmod_up k f r (fadd f a a) end
+  else Ok a.
+
+(* second loop:  for (;;) { sub = r >= a; if (sub) r = r - a; if (a == ay) { odd = sub; return r; } a = a * T(0.5); } *)
+Fixpoint fmod_down (fuel : nat) (f : fmt) (ay r a : fval) : res (fval * bool) :=
+  let sub := fge r a in
+  let r' := if sub then fsub f r a else r in
+  if feq a ay then Ok (r', sub)
+  else match fuel with O => OutOfFuel | S k => fmod_down k f ay r' (fmul f a fhalf) end.
+
+(* one iteration per binade is enough: the exponent range plus the precision bounds the loops *)
+Definition fmod_fuel (f : fmt) : nat := Z.to_nat (2 * emax f + 2 * prec f + 4).
+
+Definition gcem_fmod_exact (f : fmt) (ax ay : fval) : res (fval * bool) :=
+  do a <- fmod_up (fmod_fuel f) f ax ay; fmod_down (fmod_fuel f) f ay ax a.
+
+(* fmod_check *)
 Definition ct_fmod (f : fmt) (x y : fval) : res fval :=
-  if gcem_is_nan x || gcem_is_nan y then Ok qnan
-  else if negb (gcem_is_finite x && gcem_is_finite y) then Ok qnan
-  else do t <- ct_trunc f (fdiv f x y); Ok (fsub f x (fmul f t y)).
-Definition ct_remainder := ct_fmod.
+  if gcem_is_nan x || gcem_is_nan y || negb (gcem_is_finite x) || feq y (FZero false) then Ok qnan
+  else
+    let ax := gcem_abs x in
+    let ay := gcem_abs y in
+    if negb (fge ax ay) then Ok x
+    else do ro <- gcem_fmod_exact f ax ay;
+         Ok (if flt x (FZero false) then fneg (fst ro) else fst ro).
+
+(* remainder_check *)
+Definition ct_remainder (f : fmt) (x y : fval) : res fval :=
+  if gcem_is_nan x || gcem_is_nan y || negb (gcem_is_finite x) || feq y (FZero false) then Ok qnan
+  else if negb (gcem_is_finite y) || feq x (FZero false) then Ok x
+  else
+    let ax := gcem_abs x in
+    let ay := gcem_abs y in
+    do ro <- (if fge ax ay then gcem_fmod_exact f ax ay else Ok (ax, false));
+    let r := fst ro in
+    let odd := snd ro in
+    let u := fsub f ay r in
+    let r' := if fgt r u || (feq r u && odd) then fsub f r ay else r in
+    Ok (if flt x (FZero false) then fneg r' else r').
